@@ -187,7 +187,7 @@ def c19(tier):
     # encoding validation (not claims): the encoding and the native build agree on the class of the reader's result on concrete files
     for desc, bd, profiles in [x for x in shapes if ' footer ' in x[0] or 'any six counts' in x[0]][::(6 if tier != 'thorough' else 12)]:
         L, dom = S.dom_of(bd)
-        obs.append(Ob('c19v_classify_holds', strlen=L, unwind=L + 4, dom={'b#bytes': dom, 'k': (0, 4)}, profiles=('on',), validate=True, opts={'resolve_ite': True, 'validate_only': True},
+        obs.append(Ob('c19_enc_classify_holds', strlen=L, unwind=L + 4, dom={'b#bytes': dom, 'k': (0, 4)}, profiles=('on',), validate=True, opts={'resolve_ite': True, 'validate_only': True},
                       note='encoding validation only: ' + desc))
     return obs
 
